@@ -1,14 +1,9 @@
 /- Protocol handlers for the evaluator (graphs are exported once and referenced by later requests). -/
 import HctlModel.Proto
 import HctlModel.Api
-import Std.Data.HashSet
+import HctlModel.GraphCheck
 namespace Hctl.EvalProto
 open Hctl Hctl.Proto
-
-/-- tabulation used by the driver: a hash set of the points of the universe where `f` holds -/
-def hashTab (pts : List Point) (f : CSet) : CSet :=
-  let s : Std.HashSet Point := pts.foldl (fun acc p => if f p then acc.insert p else acc) {}
-  ⟨fun p => s.contains p⟩
 
 structure DriverState where
   env : Option Env := none
@@ -68,9 +63,9 @@ def handle? (st : DriverState) (line : String) : Option (DriverState × String) 
   match words line with
   | ["graph", nV, nS, nC, k, valid, step, labels] =>
     let G := mkGraph nV.toNat! nS.toNat! nC.toNat! k.toNat! valid step labels
-    let pts := G.points
-    let E : Env := { G := G, tab := hashTab pts, pts := pts }
-    some ({ env := some E, ctxSets := [] }, s!"graph ok points={pts.length}")
+    let E : Env := driverEnv G
+    let prem := if G.stepsOK then "ok" else "bad"
+    some ({ env := some E, ctxSets := [] }, s!"graph ok points={E.pts.length} premises={prem}")
   | ["ctx", name, bits] =>
     match st.env with
     | none => some (st, "no-graph")
